@@ -1,4 +1,5 @@
 import Prism.Proofs.Lemmas.Pulled
+import Prism.Proofs.Lemmas.PulledAuto
 import Prism.Proofs.Lemmas.Stack
 import Prism.Gen.Consts
 
@@ -43,5 +44,62 @@ meaning: two inputs on which the extractor's run coincides give the same result 
 `pre ++ body` and `pre` whenever the run on `pre ++ body` never reads past `pre`. -/
 theorem C18_result_is_functional {α : Type} (zl : Prog.Inflate) (p : Prog α) (r : Rd) :
     (load zl p r).1 = (Prog.runPure zl p r.contents.1 r.contents.2 {}).1 := load_result zl p r
+
+/-- the number of bytes each candidate tried by `autometa.Load` consumed (its parser's own consumption) -/
+def Auto.stageConsumed (zl : Prog.Inflate) : List (Prog (Except PErr Meta)) → Rd → List Nat
+  | [], _ => []
+  | p :: ps, r =>
+    (loadSt zl p r).2.2.consumed ::
+      (match (loadSt zl p r).1 with
+       | .ok _ => []
+       | .error _ => Auto.stageConsumed zl ps (loadSt zl p r).2.1)
+
+/-- **C18 (auto-detecting loader, any chain of candidates).** Each candidate reads the stream the
+previous one returned (rewind buffer first, then the source).  If no candidate's parser consumed more
+than `B` bytes, the source has been pulled at most `B` bytes plus one bufio buffer beyond where it
+stood — the candidates' read-aheads do not add up, and the body is never pulled.  Proved for every
+list of extractor programs, every reader (any nesting of rewind buffers), every schedule. -/
+theorem C18_auto_chain (zl : Prog.Inflate) (ps : List (Prog (Except PErr Meta))) :
+    ∀ (r : Rd) (B : Nat), (∀ c ∈ Auto.stageConsumed zl ps r, c ≤ B) →
+      (Auto.loadList zl ps r).2.net = r.net ∧
+      ((Auto.loadList zl ps r).2.pulled : Int) ≤ max (r.pulled : Int) (r.net + B + bufSize) := by
+  induction ps with
+  | nil => intro r B _; simp [Auto.loadList]
+  | cons p ps ih =>
+    intro r B hB
+    obtain ⟨g1, _, g3⟩ := loadSt_g zl p r
+    have hc : (loadSt zl p r).2.2.consumed ≤ B := hB _ (by simp [Auto.stageConsumed])
+    have hstep : ((loadSt zl p r).2.1.pulled : Int) ≤ max (r.pulled : Int) (r.net + B + bufSize) := by
+      refine le_trans g3 (max_le_max le_rfl ?_)
+      have : ((loadSt zl p r).2.2.consumed : Int) ≤ B := by exact_mod_cast hc
+      omega
+    have hload : load zl p r = ((loadSt zl p r).1, (loadSt zl p r).2.1) := rfl
+    simp only [Auto.loadList, hload]
+    cases hres : (loadSt zl p r).1 with
+    | ok m => simp only; exact ⟨g1, hstep⟩
+    | error e =>
+      simp only
+      have hB' : ∀ c ∈ Auto.stageConsumed zl ps (loadSt zl p r).2.1, c ≤ B := by
+        intro c hcm
+        apply hB
+        simp only [Auto.stageConsumed, hres, List.mem_cons]
+        right; exact hcm
+      obtain ⟨i1, i2⟩ := ih (loadSt zl p r).2.1 B hB'
+      refine ⟨i1.trans g1, le_trans i2 ?_⟩
+      rw [g1]
+      exact max_le hstep (le_max_right _ _)
+
+/-- in the property's terms: a fresh source, all three real extractors — the auto loader pulls at most
+64 KiB beyond the largest consumption of any candidate it tried -/
+theorem C18_auto_within_64k (zl : Prog.Inflate) (fuel : Nat) (s : Src) (h0 : s.delivered = 0) (B : Nat)
+    (hB : ∀ c ∈ Auto.stageConsumed zl (Auto.progs fuel) (.src s), c ≤ B) :
+    (Auto.load zl fuel (.src s)).2.pulled ≤ B + 65536 := by
+  have h := (C18_auto_chain zl (Auto.progs fuel) (.src s) B hB).2
+  simp only [Rd.net, Rd.pulled, Rd.buffered, h0] at h
+  unfold Auto.load
+  have hb : (bufSize : Int) = 4096 := rfl
+  have : ((Auto.loadList zl (Auto.progs fuel) (.src s)).2.pulled : Int) ≤ B + 4096 := by
+    refine le_trans h (max_le (by omega) (by omega))
+  omega
 
 end Prism
